@@ -7,7 +7,7 @@ import properties
 VERIF = os.path.dirname(os.path.dirname(os.path.abspath(__file__)))
 
 TECH = {
-    "C01": "abstract interpretation with symbolic array terms over the typed HIR; panic paths proved infeasible; FIBRE rule; ENS term equalities",
+    "C01": "abstract interpretation with symbolic array terms over the typed HIR; panic paths proved infeasible; FIBRE rule; ENS term equalities incl. the gluing clause (every leg, incidence list and node label of the composite is the operand's mapped through the coequalizer of the boundary legs)",
     "C02": "term-level ENS: result fields equal juxtaposition/shift terms (strict and lax), in-place siblings against the same spec",
     "C04": "ENS (leg provenance as term equality) + ACC/REJ acceptance conditions of spider constructors",
     "C05": "struct-invariant obligations (INV) at every public return + ACC/REJ of checked constructors + non_exhaustive witness",
@@ -18,15 +18,18 @@ TECH = {
     "C10": "same term-level spec for pure and in-place operations; ACC/REJ of compose/lax_compose; INV of conversions",
     "C11": "post-state specs with frame conditions for builders; structural DELETE rules (guard/pair/cover); serde facts + README keys",
     "C12": "typing as label-array term equality under documented functor contracts (FNAT rule), all glue unwraps infeasible",
-    "C13": "ACC/REJ: Some implies no pending unification and None only with pending unifications (totality under the functor contract); INV of result and witness; Option propagation (no panic path)",
+    "C13": "ACC/REJ: Some implies no pending unification and None only with pending unifications (totality under the functor contract); INV of result and witness; witness content as term equalities (segment sizes, labels of the selected nodes); Option propagation (no panic path)",
     "C14": "typing of map_object/map_operations/adapt as ordered label-array terms under A_F1/A_F2/A_O",
     "C15": "panic-path infeasibility incl. Houdini loop invariants for kahn; one-iteration step specification of kahn's loop as term equalities (checked premise of the trusted lemmas); result shape ENS; DEP",
     "C16": "ACC/REJ on the unvisited guard; panic-path infeasibility under A_E; call-site obligation that apply receives labels and inputs of one selection; kahn step specification; DEP",
     "C17": "panic-path infeasibility (array subtraction is an obligation in debug and release); exact boolean spec of is_monogamous / is_injective / is_discrete (result formula equivalent to the definition on every path); kahn step specification; DEP",
-    "C18": "ACC (all four naturality equalities entailed on Ok) + REJ per error variant; is_convex_subgraph true only on paths that established both injectivity facts; totality of convexity loop; DEP",
-    "C19": "shapecheck of Var/operator/forget code with a heap-handle model of Rc<RefCell>; Forget::map_operation keeps every non-variable operation as its own singleton; REFCELL and SELFCMP structural rules",
+    "C18": "ACC (all four naturality equalities entailed on Ok) + REJ per error variant; is_convex_subgraph true only on paths that established both injectivity facts; totality of convexity loop and its frontier step condition; callee-level role spec of the adjacency construction (provenance); DEP",
+    "C19": "shapecheck of Var/operator/forget code with a heap-handle model of Rc<RefCell>; path-fact specs of Forget / ForgetMonogamous::map_operation (removal only after the var test and the uniformity decision over source and target labels; kept operations are singletons of their own label; one merged node); REFCELL and SELFCMP structural rules",
     "C20": "type-level witness (foreign ArrayKind type-checks) + genericity audit + compile_fail,E0639 witnesses; obligations of the consumers of the backend's open choices proved against the array contract alone (uninterpreted numbering / tie order / filler)",
 }
+
+PREMISES = ("; each check also contains the obligations of its premises: the public operations its entry points call "
+            "directly (Vec array primitives included, except for C20)")
 
 NOTE = ("Trusted: rustc name/type resolution (facts exported by the ohx rustc_private driver from /repo's working tree); "
         "the array contract axioms transcribed from src/array/traits.rs (the Vec backend is checked against them under C07, except "
@@ -56,7 +59,7 @@ def main():
                 "design_ref": "DESIGN.md §7 " + pid,
             },
             "level_note": NOTE,
-            "technique": TECH[pid],
+            "technique": TECH[pid] + PREMISES,
         })
     man = {
         "version": 1,
